@@ -105,9 +105,9 @@ Leaves ==
     {ExprN(e, tr) : e \in Exprs, tr \in Ws} \cup
     {VoidN(nm, at, tr) : nm \in VoidNames, at \in AttrChoices, tr \in Ws} \cup
     {CallN(c) : c \in {"leaf", "wrap"}} \cup
-    {SlotN(af) : af \in {"", "v"}} \cup
-    {HCommentN(af) : af \in {"", "v"}} \cup
-    {RawN(nm, af) : nm \in {"style", "script"}, af \in {"", "v"}} \cup
+    {SlotN(af) : af \in Ws} \cup
+    {HCommentN(af) : af \in Ws} \cup
+    {RawN(nm, af) : nm \in {"style", "script"}, af \in Ws} \cup
     {GoCodeN, GCommentN, DoctypeN}
 
 OpenFrame(fr) == /\ Budget
@@ -227,7 +227,7 @@ DenAttrs(at, env) ==
 LeafToks(g) == << TagTok("i", <<>>, g), Tok("word", "leaf", "mustnot"), Tok("close", "i", "mustnot") >>
 KidToks     == << TagTok("u", <<>>, "may"), Tok("word", "kid", "mustnot"), Tok("close", "u", "mustnot") >>
 
-RECURSIVE DenList(_, _, _), DenNode(_, _, _), DenRepeat(_, _, _), DenBranches(_, _, _, _), DenCases(_, _, _)
+RECURSIVE DenList(_, _, _), DenNode(_, _, _), DenRepeat(_, _, _, _), DenBranches(_, _, _, _, _), DenCases(_, _, _, _)
 
 \* result: [toks, evs, prev]
 DenList(nodes, prev, env) ==
@@ -236,23 +236,39 @@ DenList(nodes, prev, env) ==
              rest == DenList(Tail(nodes), one.prev, env)
          IN [toks |-> one.toks \o rest.toks, evs |-> one.evs \o rest.evs, prev |-> rest.prev]
 
-DenRepeat(body, k, env) ==
-    IF k = 0 THEN [toks |-> <<>>, evs |-> <<>>]
-    ELSE LET one == DenList(body, POpaque, env)
-             rest == DenRepeat(body, k - 1, env)
-         IN [toks |-> one.toks \o rest.toks, evs |-> one.evs \o rest.evs]
+(* Control flow is transparent for adjacency at its two ends (the generator hands the node that follows the
+   if/for/switch to the last node of each body): the first node of the body that runs is adjacent to the sibling
+   in front of the statement, and the sibling after the statement is adjacent to the last node of the body that
+   ran. A body that renders nothing, and the seam between two iterations of a loop, make no adjacency claim.   *)
+BodyEnd(body, r) == IF body = <<>> THEN POpaque ELSE r.prev
 
-DenBranches(brs, els, env, i) ==
-    IF i > Len(brs) THEN LET r == DenList(els, POpaque, env) IN [toks |-> r.toks, evs |-> r.evs]
+DenRepeat(body, k, prev, env) ==
+    IF k = 0 THEN [toks |-> <<>>, evs |-> <<>>, prev |-> POpaque]
+    ELSE LET one == DenList(body, prev, env)
+             rest == DenRepeat(body, k - 1, POpaque, env)
+         IN [toks |-> one.toks \o rest.toks, evs |-> one.evs \o rest.evs,
+             prev |-> IF k = 1 THEN BodyEnd(body, one) ELSE rest.prev]
+
+DenBranches(brs, els, prev, env, i) ==
+    IF i > Len(brs) THEN LET r == DenList(els, prev, env) IN [toks |-> r.toks, evs |-> r.evs, prev |-> BodyEnd(els, r)]
     ELSE IF env.c[brs[i].c]
-         THEN LET r == DenList(brs[i].body, POpaque, env) IN [toks |-> r.toks, evs |-> << brs[i].c >> \o r.evs]
-         ELSE LET r == DenBranches(brs, els, env, i + 1) IN [toks |-> r.toks, evs |-> << brs[i].c >> \o r.evs]
+         THEN LET r == DenList(brs[i].body, prev, env)
+              IN [toks |-> r.toks, evs |-> << brs[i].c >> \o r.evs, prev |-> BodyEnd(brs[i].body, r)]
+         ELSE LET r == DenBranches(brs, els, prev, env, i + 1)
+              IN [toks |-> r.toks, evs |-> << brs[i].c >> \o r.evs, prev |-> r.prev]
 
-DenCases(cases, env, i) ==
-    IF i > Len(cases) THEN [toks |-> <<>>, evs |-> <<>>]
+DenCases(cases, prev, env, i) ==
+    IF i > Len(cases) THEN [toks |-> <<>>, evs |-> <<>>, prev |-> POpaque]
     ELSE IF cases[i].key = env.s \/ cases[i].key = "default"
-         THEN LET r == DenList(cases[i].body, POpaque, env) IN [toks |-> r.toks, evs |-> r.evs]
-         ELSE DenCases(cases, env, i + 1)
+         THEN LET r == DenList(cases[i].body, prev, env)
+              IN [toks |-> r.toks, evs |-> r.evs, prev |-> BodyEnd(cases[i].body, r)]
+         ELSE DenCases(cases, prev, env, i + 1)
+
+\* what a control-flow statement sees in front of it: only an inline trailer sibling keeps its claim
+\* (the statement starts a new line, so whitespace is always present and nothing can be "mustnot")
+Through(prev) == IF prev.st = "node" /\ prev.inl /\ prev.ws # "" THEN prev ELSE POpaque
+\* what follows a control-flow statement sees: the last node of the body that ran, if it is an inline trailer
+After(p) == IF p.st = "node" /\ p.inl /\ p.ws # "" THEN p ELSE POpaque
 
 DenNode(nd, prev, env) ==
     CASE nd.k = "text" -> [toks |-> << Tok("word", nd.w, Gap(prev, nd)) >>, evs |-> <<>>, prev |-> PNode(nd)]
@@ -264,10 +280,12 @@ DenNode(nd, prev, env) ==
                               cg == IF nd.kids = <<>> THEN "mustnot" ELSE GapClose(ks.prev)
                           IN [toks |-> << TagTok(nd.name, a.pairs, Gap(prev, nd)) >> \o ks.toks \o << Tok("close", nd.name, cg) >>,
                               evs |-> a.evs \o ks.evs, prev |-> PNode(nd)]
-      [] nd.k = "if"   -> LET r == DenBranches(nd.brs, nd.els, env, 1) IN [toks |-> r.toks, evs |-> r.evs, prev |-> POpaque]
-      [] nd.k = "for"  -> LET r == DenRepeat(nd.body, env.l[nd.l], env) IN
-                          [toks |-> r.toks, evs |-> << nd.l >> \o r.evs, prev |-> POpaque]
-      [] nd.k = "switch" -> LET r == DenCases(nd.cases, env, 1) IN [toks |-> r.toks, evs |-> << "S" >> \o r.evs, prev |-> POpaque]
+      [] nd.k = "if"   -> LET r == DenBranches(nd.brs, nd.els, Through(prev), env, 1)
+                          IN [toks |-> r.toks, evs |-> r.evs, prev |-> After(r.prev)]
+      [] nd.k = "for"  -> LET r == DenRepeat(nd.body, env.l[nd.l], Through(prev), env)
+                          IN [toks |-> r.toks, evs |-> << nd.l >> \o r.evs, prev |-> After(r.prev)]
+      [] nd.k = "switch" -> LET r == DenCases(nd.cases, Through(prev), env, 1)
+                            IN [toks |-> r.toks, evs |-> << "S" >> \o r.evs, prev |-> After(r.prev)]
       [] nd.k = "call" -> [toks |-> IF nd.comp = "leaf" THEN LeafToks("may")
                                     ELSE << TagTok("section", <<>>, "may"), Tok("close", "section", "may") >>,
                            evs |-> <<>>, prev |-> POpaque]
